@@ -31,7 +31,7 @@ func runC13(c *Ctx) {
 	w := c.W
 	type dec struct {
 		rel, lib, tag string
-		dur          bool
+		dur           bool
 	}
 	decs := []dec{
 		{"decoders/json", "encoding/json.Unmarshal", "json", true},
